@@ -131,6 +131,14 @@ Proof.
   destruct ((lo <=? z) && (z <=? hi)); simpl; auto.
 Qed.
 
+(* the signed type rejects every fractional float / decimal, whatever the bounds *)
+Theorem conv_int_rejects_fraction : forall lo hi n1 n d, Z.rem n (Zpos d) <> 0 ->
+  convert (TInt lo hi n1) (GF n d) = Err /\ convert (TInt lo hi n1) (GD n d) = Err.
+Proof.
+  intros lo hi n1 n d H. simpl. unfold float_i64, frac_int.
+  destruct (Z.rem n (Zpos d) =? 0) eqn:E; [apply Z.eqb_eq in E; contradiction|]. auto.
+Qed.
+
 Theorem conv_uint_exact : forall lo hi k z, in_u64 z = true ->
   convert (TUint lo hi) (GI k z) = if (lo <=? z) && (z <=? hi) then Ok (GI KUint64 z) else Err.
 Proof. intros lo hi k z H. simpl. rewrite (wrap_u_id z H). reflexivity. Qed.
